@@ -177,3 +177,126 @@ def load_corpus(path):
 
 def is_legit(o):
     return o["op"] not in ("RawPC", "RawCC")
+
+
+# ------------------------------------------------------------------ independent oracles on the implementation runs
+def oracle_c42(c):
+    """Ordered, gap-free, re-presented only while unconfirmed, chain, confirmations once, liveness after a fair tail.
+    Uses only the traffic the real controllers produced (plus the watermarks for the chain clause).
+    returns list of (signature, what, step)"""
+    bad = []
+    stored = {}          # seq -> message number, from the Stored replies to the producer endpoint
+    last = None          # last Delivery told (mid, seq)
+    confirmed_upto = 0   # highest seq the consumer endpoint effectively confirmed
+    next_notice = 1
+    for k in range(len(c["obs"])):
+        g = split_groups(c["obs"][k])
+        op = c["ops"][k - 1] if k > 0 else None
+        if op is not None and op["op"] == "Confirmed" and last is not None:
+            if op.get("s", 0) == 1 and (op.get("m", 0), op.get("q", 0)) == last and last[1] > confirmed_upto:
+                confirmed_upto = last[1]
+        for m in g["toProd"]:
+            if m[0] == 4:
+                _, s_, t_, mid, q = m
+                if q in stored and stored[q] != mid:
+                    bad.append(("store:seq-reassigned", "seq %d stored for message %d and later for %d" % (q, stored[q], mid), k))
+                if q not in stored and q != len(stored) + 1:
+                    bad.append(("store:seq-gap", "stored seq %d after %d stored messages" % (q, len(stored)), k))
+                stored.setdefault(q, mid)
+            if m[0] == 5:
+                _, s_, mid, q = m
+                if q != next_notice:
+                    bad.append(("confirm:not-exactly-once-in-order", "DeliveryConfirmed seq %d, expected %d" % (q, next_notice), k))
+                if q > confirmed_upto:
+                    bad.append(("confirm:before-consumer-confirmed", "DeliveryConfirmed seq %d but consumer confirmed up to %d" % (q, confirmed_upto), k))
+                if stored.get(q) != mid:
+                    bad.append(("confirm:wrong-message", "DeliveryConfirmed seq %d names message %d, stored %s" % (q, mid, stored.get(q)), k))
+                next_notice = max(next_notice, q + 1)
+        for d in g["toCons"]:
+            _, s_, mid, q = d
+            prev = last[1] if last else 0
+            if q == prev + 1:
+                pass
+            elif q == prev and last is not None:
+                if mid != last[0]:
+                    bad.append(("delivery:changed-message", "seq %d re-presented with message %d, was %d" % (q, mid, last[0]), k))
+            else:
+                bad.append(("delivery:gap-or-reorder", "Delivery seq %d after seq %d" % (q, prev), k))
+            if q <= confirmed_upto:
+                bad.append(("delivery:re-presented-after-confirmation", "Delivery seq %d although the consumer confirmed up to %d" % (q, confirmed_upto), k))
+            if stored.get(q) != mid:
+                bad.append(("delivery:not-production-order", "Delivery seq %d carries message %d, the producer stored %s there" % (q, mid, stored.get(q)), k))
+            last = (mid, q)
+        P, C = g["P"], g["C"]
+        if not (P["conf"] <= C["conf"] <= P["cur"]):
+            bad.append(("chain:confirmed<=delivered<=stored", "producer confirmed %d, consumer confirmed %d, stored %d" % (P["conf"], C["conf"], P["cur"]), k))
+        if [q for (_, q) in P["unconf"]] != list(range(P["conf"] + 1, P["cur"] + 1)):
+            bad.append(("chain:unconfirmed-not-contiguous", "unconfirmed %s with confirmed %d stored %d" % (P["unconf"], P["conf"], P["cur"]), k))
+        if bad:
+            break
+    if not bad:
+        if c.get("payload_bad", 0):
+            bad.append(("delivery:payload-corrupted", "%d deliveries carried a payload that is not the produced one" % c["payload_bad"], len(c["obs"]) - 1))
+        if c.get("drained") == 0:
+            g = split_groups(c["obs"][-1])
+            bad.append(("liveness:not-confirmed-after-fair-tail", "after a loss-free fair tail (14 timer rounds) producer confirmed %d of %d stored" % (g["P"]["conf"], g["P"]["cur"]), len(c["obs"]) - 1))
+    return bad
+
+
+def oracle_c43(c):
+    bad = []
+    max_sent = 0       # highest request-up-to the consumer controller ever sent
+    max_deliv = 0      # highest request-up-to that reached the producer controller
+    net_pc = []
+    w = c["window"]
+    for k in range(len(c["obs"])):
+        g = split_groups(c["obs"][k])
+        op = c["ops"][k - 1] if k > 0 else None
+        if op is not None and op["op"] == "DeliverPC" and op.get("i", 0) < len(net_pc):
+            m = net_pc[op.get("i", 0)]
+            if m[0] == 12:
+                max_deliv = max(max_deliv, m[4])
+        for m in g["toCC"]:
+            if m[0] == 2:
+                q = m[3]
+                if q > max_sent:
+                    bad.append(("emit:beyond-requested", "SequencedMessage seq %d sent, highest request so far %d" % (q, max_sent), k))
+                elif q > max_deliv:
+                    bad.append(("emit:beyond-received-demand", "SequencedMessage seq %d sent, highest request received by the producer controller %d" % (q, max_deliv), k))
+        for m in g["toPC"]:
+            net_pc.append(m)
+            if m[0] == 12:
+                max_sent = max(max_sent, m[4])
+        P, C = g["P"], g["C"]
+        if len(C["buf"]) > w:
+            bad.append(("buffer:exceeds-window", "receive buffer holds %d entries, window %d" % (len(C["buf"]), w), k))
+        if P["demand"] > max_sent:
+            bad.append(("demand:beyond-requested", "demandUpTo %d, highest request ever sent %d" % (P["demand"], max_sent), k))
+        if bad:
+            break
+    return bad
+
+
+def fault_stats(c):
+    """drop/dup/reorder statistics of the schedule, per direction"""
+    st = {"dup": 0, "reorder": 0, "never": 0, "ticks": 0, "raw": 0}
+    for d, key, net in (("DeliverPC", "toPC", "netPC"), ("DeliverCC", "toCC", "netCC")):
+        seen, hi, total = set(), -1, 0
+        for k in range(len(c["obs"])):
+            total += len(split_groups(c["obs"][k])[key])
+        for o in c["ops"]:
+            if o["op"] == d:
+                i = o.get("i", 0)
+                if i in seen:
+                    st["dup"] += 1
+                elif i < hi:
+                    st["reorder"] += 1
+                seen.add(i)
+                hi = max(hi, i)
+        st["never"] += len([i for i in range(total) if i not in seen])
+    for o in c["ops"]:
+        if o["op"].startswith("Tick"):
+            st["ticks"] += 1
+        if o["op"].startswith("Raw"):
+            st["raw"] += 1
+    return st
